@@ -5,57 +5,65 @@ use super::*;
 // Round trips compare field by field (pattern + condition) instead of the derived `==` on WalRecord, whose recursive
 // PartialEq over PropertyValue / 8 KiB page boxes makes CBMC unroll code the obligation does not need.
 macro_rules! rt {
-    ($name:ident, [$($v:ident : $t:ty),*], $mk:expr, $pat:pat => $cond:expr) => {
+    ($name:ident, $ty:expr, $n:expr, [$($v:ident : $t:ty),*], $mk:expr, $pat:pat => $cond:expr) => {
         #[kani::proof]
         #[kani::unwind(40)]
         fn $name() {
             $(let $v: $t = kani::any();)*
             let r = $mk;
             let body = r.encode_body();
-            let ok = match &body {
-                Ok(b) => {
-                    let d = WalRecord::decode_body(b);
-                    let same = match &d {
-                        Ok($pat) => $cond,
-                        _ => false,
-                    };
-                    std::mem::forget(d);
-                    same
+            let enc = match &body {
+                Ok(b) => b,
+                Err(_) => {
+                    assert!(false, "wal record: encode_body succeeds");
+                    return;
                 }
-                Err(_) => false,
             };
+            // move the encoding into a fixed array; the record type byte is asserted and then pinned to its constant so that
+            // CBMC explores only the matching arm of decode_body (the other 16 arms are irrelevant to this record kind)
+            assert!(enc.len() == $n, "wal record: encoded length");
+            let mut buf = [0u8; $n];
+            buf.copy_from_slice(enc);
+            assert!(buf[0] == $ty, "wal record: encoded type byte");
+            buf[0] = $ty;
+            let d = WalRecord::decode_body(&buf);
+            let ok = match &d {
+                Ok($pat) => $cond,
+                _ => false,
+            };
+            std::mem::forget(d);
             std::mem::forget((body, r));
             kani::cover!(true, "witness: reached");
             assert!(ok, "wal record: decode_body(encode_body(r)) == r");
         }
     };
 }
-rt!(c25_o4_q_rt_begin, [t: u64], WalRecord::BeginTx { txid: t }, WalRecord::BeginTx { txid } => *txid == t);
-rt!(c25_o4_q_rt_commit, [t: u64], WalRecord::CommitTx { txid: t }, WalRecord::CommitTx { txid } => *txid == t);
-rt!(c25_o4_q_rt_page_free, [p: u64], WalRecord::PageFree { page_id: p }, WalRecord::PageFree { page_id } => *page_id == p);
-rt!(c25_o4_q_rt_create_node, [e: u64, l: u32, i: u32],
+rt!(c25_o4_q_rt_begin, 1, 9, [t: u64], WalRecord::BeginTx { txid: t }, WalRecord::BeginTx { txid } => *txid == t);
+rt!(c25_o4_q_rt_commit, 2, 9, [t: u64], WalRecord::CommitTx { txid: t }, WalRecord::CommitTx { txid } => *txid == t);
+rt!(c25_o4_q_rt_page_free, 4, 9, [p: u64], WalRecord::PageFree { page_id: p }, WalRecord::PageFree { page_id } => *page_id == p);
+rt!(c25_o4_q_rt_create_node, 5, 17, [e: u64, l: u32, i: u32],
     WalRecord::CreateNode { external_id: e, label_id: l, internal_id: i },
     WalRecord::CreateNode { external_id, label_id, internal_id } => *external_id == e && *label_id == l && *internal_id == i);
-rt!(c25_o4_q_rt_add_label, [n: u32, l: u32], WalRecord::AddNodeLabel { node: n, label_id: l },
+rt!(c25_o4_q_rt_add_label, 16, 9, [n: u32, l: u32], WalRecord::AddNodeLabel { node: n, label_id: l },
     WalRecord::AddNodeLabel { node, label_id } => *node == n && *label_id == l);
-rt!(c25_o4_q_rt_remove_label, [n: u32, l: u32], WalRecord::RemoveNodeLabel { node: n, label_id: l },
+rt!(c25_o4_q_rt_remove_label, 17, 9, [n: u32, l: u32], WalRecord::RemoveNodeLabel { node: n, label_id: l },
     WalRecord::RemoveNodeLabel { node, label_id } => *node == n && *label_id == l);
-rt!(c25_o4_q_rt_create_edge, [a: u32, r0: u32, b0: u32], WalRecord::CreateEdge { src: a, rel: r0, dst: b0 },
+rt!(c25_o4_q_rt_create_edge, 6, 13, [a: u32, r0: u32, b0: u32], WalRecord::CreateEdge { src: a, rel: r0, dst: b0 },
     WalRecord::CreateEdge { src, rel, dst } => *src == a && *rel == r0 && *dst == b0);
-rt!(c25_o4_q_rt_tombstone_node, [n: u32], WalRecord::TombstoneNode { node: n }, WalRecord::TombstoneNode { node } => *node == n);
-rt!(c25_o4_q_rt_tombstone_edge, [a: u32, r0: u32, b0: u32], WalRecord::TombstoneEdge { src: a, rel: r0, dst: b0 },
+rt!(c25_o4_q_rt_tombstone_node, 7, 5, [n: u32], WalRecord::TombstoneNode { node: n }, WalRecord::TombstoneNode { node } => *node == n);
+rt!(c25_o4_q_rt_tombstone_edge, 8, 13, [a: u32, r0: u32, b0: u32], WalRecord::TombstoneEdge { src: a, rel: r0, dst: b0 },
     WalRecord::TombstoneEdge { src, rel, dst } => *src == a && *rel == r0 && *dst == b0);
-rt!(c25_o4_q_rt_checkpoint, [u: u64, e: u64, p: u64, s0: u64],
+rt!(c25_o4_q_rt_checkpoint, 10, 33, [u: u64, e: u64, p: u64, s0: u64],
     WalRecord::Checkpoint { up_to_txid: u, epoch: e, properties_root: p, stats_root: s0 },
     WalRecord::Checkpoint { up_to_txid, epoch, properties_root, stats_root } => *up_to_txid == u && *epoch == e && *properties_root == p && *stats_root == s0);
-rt!(c25_o4_q_rt_manifest_0, [e: u64, p: u64, s0: u64],
+rt!(c25_o4_q_rt_manifest_0, 9, 29, [e: u64, p: u64, s0: u64],
     WalRecord::ManifestSwitch { epoch: e, segments: Vec::new(), properties_root: p, stats_root: s0 },
     WalRecord::ManifestSwitch { epoch, segments, properties_root, stats_root } => *epoch == e && segments.is_empty() && *properties_root == p && *stats_root == s0);
-rt!(c25_o4_t_rt_manifest_1, [e: u64, p: u64, s0: u64, i: u64, m: u64],
+rt!(c25_o4_t_rt_manifest_1, 9, 45, [e: u64, p: u64, s0: u64, i: u64, m: u64],
     WalRecord::ManifestSwitch { epoch: e, segments: vec![SegmentPointer { id: i, meta_page_id: m }], properties_root: p, stats_root: s0 },
     WalRecord::ManifestSwitch { epoch, segments, properties_root, stats_root } =>
         *epoch == e && segments.len() == 1 && segments[0].id == i && segments[0].meta_page_id == m && *properties_root == p && *stats_root == s0);
-rt!(c25_o4_t_rt_manifest_2, [e: u64, p: u64, s0: u64, i: u64, m: u64, i2: u64, m2: u64],
+rt!(c25_o4_t_rt_manifest_2, 9, 61, [e: u64, p: u64, s0: u64, i: u64, m: u64, i2: u64, m2: u64],
     WalRecord::ManifestSwitch { epoch: e, segments: vec![SegmentPointer { id: i, meta_page_id: m }, SegmentPointer { id: i2, meta_page_id: m2 }], properties_root: p, stats_root: s0 },
     WalRecord::ManifestSwitch { epoch, segments, properties_root, stats_root } =>
         *epoch == e && segments.len() == 2 && segments[0].id == i && segments[1].id == i2 && segments[1].meta_page_id == m2 && segments[0].meta_page_id == m
@@ -70,13 +78,13 @@ fn ascii<const N: usize>() -> String {
     }
     unsafe { String::from_utf8_unchecked(a.to_vec()) }
 }
-rt!(c25_o4_t_rt_create_label_0, [l: u32], WalRecord::CreateLabel { name: String::new(), label_id: l },
+rt!(c25_o4_t_rt_create_label_0, 15, 9, [l: u32], WalRecord::CreateLabel { name: String::new(), label_id: l },
     WalRecord::CreateLabel { name, label_id } => name.is_empty() && *label_id == l);
-rt!(c25_o4_t_rt_create_label_1, [l: u32, c: u8], WalRecord::CreateLabel { name: { kani::assume(c < 0x80); unsafe { String::from_utf8_unchecked(vec![c]) } }, label_id: l },
+rt!(c25_o4_t_rt_create_label_1, 15, 10, [l: u32, c: u8], WalRecord::CreateLabel { name: { kani::assume(c < 0x80); unsafe { String::from_utf8_unchecked(vec![c]) } }, label_id: l },
     WalRecord::CreateLabel { name, label_id } => name.len() == 1 && name.as_bytes()[0] == c && *label_id == l);
-rt!(c25_o4_t_rt_remove_node_prop_1, [n: u32, c: u8], WalRecord::RemoveNodeProperty { node: n, key: { kani::assume(c < 0x80); unsafe { String::from_utf8_unchecked(vec![c]) } } },
+rt!(c25_o4_t_rt_remove_node_prop_1, 13, 10, [n: u32, c: u8], WalRecord::RemoveNodeProperty { node: n, key: { kani::assume(c < 0x80); unsafe { String::from_utf8_unchecked(vec![c]) } } },
     WalRecord::RemoveNodeProperty { node, key } => *node == n && key.len() == 1 && key.as_bytes()[0] == c);
-rt!(c25_o4_a_rt_set_node_prop_int, [n: u32, c: u8, v: i64],
+rt!(c25_o4_a_rt_set_node_prop_int, 11, 19, [n: u32, c: u8, v: i64],
     WalRecord::SetNodeProperty { node: n, key: { kani::assume(c < 0x80); unsafe { String::from_utf8_unchecked(vec![c]) } }, value: PropertyValue::Int(v) },
     WalRecord::SetNodeProperty { node, key, value } => *node == n && key.len() == 1 && key.as_bytes()[0] == c && matches!(value, PropertyValue::Int(x) if *x == v));
 
